@@ -518,6 +518,7 @@ def run(tier):
     rule_R7(res, prog)
     rule_R8(res, prog)
     rule_R9(res, prog)
+    rule_R10(res, prog)
     return res.finish()
 
 
@@ -758,4 +759,71 @@ def rule_R9(res, prog):
                                      fn.relfile, ln, fn.name, name, sorted(arrays), sorted(lens)[0], sorted(arrays)[0]),
                                  file=fn.relfile, line=ln)
                 res.instance(rid, "%s:%s %s() only when %s is empty" % (fn.name, ln, name, sorted(arrays)[0]), ok, finding=f_)
+    res.floor(rid, 2)
+
+
+def rule_R10(res, prog):
+    """RFC 5246 7.4.3 - 'offered by the client in that handshake': the TLS 1.2 client verifies a ServerKeyExchange signature
+    only after the SignatureAndHashAlgorithm it carries was looked up in the client's own ssl->supportedSigAlgs (the list
+    written into signature_algorithms) and the `not found` outcome left with an error.  Versions without the field are the
+    only exemption."""
+    import re
+    from sa import cfgutil as cu
+    rid = "C07.R10"
+    res.rule(rid, "TLS 1.2 client: the ServerKeyExchange signature algorithm is verified only after it was found in the client's own "
+                  "signature_algorithms list")
+    fn = prog.fn("tlsVerify")
+    WITH = prog.enums.get("v_tls_with_signature_algorithms")
+    NEG = prog.enums.get("v_tls_negotiated")
+
+    def lookup(x):
+        for m in walk(x):
+            if m.get("k") == "call" and m.get("fn") == "findFromUint16Array" and len(m.get("a", [])) >= 3 and \
+                    any(q.get("k") == "mem" and q.get("f") == "supportedSigAlgs" for q in walk(m["a"][0])) and \
+                    any(q.get("k") == "mem" and q.get("f") == "supportedSigAlgsLen" for q in walk(m["a"][1])):
+                return True
+        return False
+
+    def no_field_edge(b, k):
+        t = b.get("term")
+        if t is None or "c" not in t or len(b["succ"]) != 2:
+            return False
+        for (txt, tr, nd) in cu._cond_atoms(t["c"], k == 0):
+            m_ = re.search(r"activeVersion & (\d+)\)$", txt)
+            if m_ and not tr and WITH and (int(m_.group(1)) == WITH or int(m_.group(1)) == NEG):
+                return True
+        return False
+
+    def verifies(x):
+        return any(m.get("k") == "call" and m.get("fn") == "psVerifySig" for m in walk(x))
+    esc = cu.escapes(fn, (fn.entry, None), lookup, exempt_edge=no_field_edge, target_expr=verifies)
+    f_ = None
+    if esc is not None:
+        f_ = Finding(PROP, rid, fn.name, "signature algorithm of the ServerKeyExchange not checked against the offered list",
+                     "%s:%s tlsVerify(): psVerifySig is reached (via lines %s) under a version that carries SignatureAndHashAlgorithm without "
+                     "findFromUint16Array(ssl->supportedSigAlgs, ..): a server can sign with any algorithm the build can verify, whatever the "
+                     "client offered or its session options allow" % (fn.relfile, esc[-1][1], [p_[1] for p_ in esc[-6:-1]]),
+                     file=fn.relfile, line=esc[-1][1])
+    res.instance(rid, "tlsVerify: every path to psVerifySig under a version with SignatureAndHashAlgorithm passes the lookup in supportedSigAlgs",
+                 esc is None, finding=f_)
+    # the `not found` outcome is an error
+    n = 0
+    for b in fn.blocks:
+        t = b.get("term")
+        if t is None or "c" not in t or not lookup(t["c"]):
+            continue
+        n += 1
+        fail_k = None
+        for k in (0, 1):
+            for (txt, tr, nd) in cu._cond_atoms(t["c"], k == 0):
+                if txt.startswith("(findFromUint16Array(") and ((txt.endswith("< 0)") and tr) or (txt.endswith(">= 0)") and not tr)):
+                    fail_k = k
+        bad = cu.edge_only_errors(fn, b, fail_k) if fail_k is not None else 0
+        f2 = None
+        if fail_k is None or bad is not None:
+            f2 = Finding(PROP, rid, fn.name, "`algorithm not offered` does not fail",
+                         "%s:%s tlsVerify(): the outcome `not found in supportedSigAlgs` %s" % (
+                             fn.relfile, t["ln"], "is not tested as `< 0`" if fail_k is None else "reaches the non-error return at line %s" % bad),
+                         file=fn.relfile, line=t["ln"])
+        res.instance(rid, "tlsVerify:%s `not in supportedSigAlgs` leaves with an error" % t["ln"], f2 is None, finding=f2)
     res.floor(rid, 2)
